@@ -741,6 +741,7 @@ public:
      * @param TheMatchPattern The match pattern
      * @param thePatternString the pattern string
      * @param thePriority The priority for the match pattern.
+     * @param theAlternative The index of the alternative of the match pattern the instance stands for
      *
      * @return A pointer to the new instance.
      */
@@ -751,7 +752,8 @@ public:
             const XalanDOMString&   theTargetString,
             const XPath&            theMatchPattern,
             const XalanDOMString&   thePatternString,
-            XPath::eMatchScore      thePriority) = 0;
+            XPath::eMatchScore      thePriority,
+            size_type               theAlternative) = 0;
 };
 
 
